@@ -17,8 +17,8 @@ import os
 import vlib
 
 PID = "C15"
-NEGS = ["continue", "sleepnext", "mult", "weights", "pernext"]
-INVS = ["Built", "LogOK", "GapsOK", "SamplesOK", "RingOK", "NextRowsOK", "MultiSamplesOK"]
+NEGS = ["continue", "sleepnext", "mult", "weights", "pernext", "grpcabort", "htmlraw"]
+INVS = ["Built", "LogOK", "GapsOK", "SamplesOK", "RingOK", "NextRowsOK", "MultiSamplesOK", "MultiBagsOK"]
 
 
 def cases_of(r):
@@ -79,7 +79,7 @@ def run(tier, v):
     # 1. design level + case export
     mod = 3 if thorough else 9
     r = vlib.tlc("ScenarioMC", "Scenario_thorough.cfg" if thorough else "Scenario_exh.cfg",
-                 env={"VERIF_SEED": vlib.seed(), "VERIF_MOD": mod}, workers=8, heap="6g", deadlock=False, timeout=2400)
+                 env={"VERIF_SEED": vlib.seed(), "VERIF_MOD": mod, "VERIF_GMOD": 1 if thorough else 2}, workers=8, heap="6g", deadlock=False, timeout=2400)
     vlib.tlc_must_pass(r, "Scenario_exh")
     vlib.log("design level: %d states, %d cases exported, %.1fs" % (r.distinct, len(cases_of(r)), r.wall))
     states += r.distinct
@@ -101,8 +101,8 @@ def run(tier, v):
     # 2. M2 / M1: the real code
     b = vlib.harness_build()
     d = vlib.scratch()
-    single = [c for c in cases if c["fam"] not in ("next", "first")]
-    multi = [c for c in cases if c["fam"] == "next"]
+    single = [c for c in cases if c["fam"] not in ("next", "first", "mfail")]
+    multi = [c for c in cases if c["fam"] in ("next", "mfail")]
     first = [c for c in cases if c["fam"] == "first"]
     if len(first) < 3:
         raise vlib.MachineryError("first-access cases missing from the export")
@@ -195,5 +195,5 @@ MANIFEST = dict(
     note="bounds: <= 3 listed requests x multiplicity 1..3, 9 flow profiles, 2 shots, 1 failure per run (quick: representative "
          "shapes for lists of 2 and 3, failure positions <= 5; a seeded 1/7 of the flow cases is replayed, 1/3 in thorough); pauses "
          "one-sided; ring order inside a cycle not demanded; a missing template variable is '<no value>', not a failure; [rand], "
-         "min_waiting_time, html templater, gRPC scenarios not covered; renderer/recorder trusted",
+         "min_waiting_time not covered; grpc/scenario gun and html templater are dimensions of the case space; renderer/recorder trusted",
 )
